@@ -748,37 +748,35 @@ func (c *Conn) writev(in [][]byte) (int, error) {
 	}
 
 	nwrite, err := writev(c, in)
-	if nwrite > 0 {
-		n := nwrite
-		onWrittenSize := c.p.g.onWrittenSize
-		if n < size {
-			for i := 0; i < len(in) && n > 0; i++ {
-				b := in[i]
-				if n == 0 {
-					c.newToWriteBuf(b)
-					// c.appendWrite(t)
-				} else {
-					if n < len(b) {
-						if onWrittenSize != nil {
-							onWrittenSize(c, b[:n], n)
-						}
-						c.newToWriteBuf(b[n:])
-						// c.appendWrite(t)
-						n = 0
-					} else {
-						if onWrittenSize != nil {
-							onWrittenSize(c, b, len(b))
-						}
-						n -= len(b)
-					}
-				}
-			}
-		}
-	} else {
+	if nwrite < 0 {
 		nwrite = 0
 	}
+	if err != nil &&
+		!errors.Is(err, syscall.EINTR) &&
+		!errors.Is(err, syscall.EAGAIN) {
+		return nwrite, err
+	}
 
-	return nwrite, err
+	// Whatever the kernel did not take is queued, in order: the rest of the
+	// buffer the write stopped in and every buffer after it.
+	n := nwrite
+	onWrittenSize := c.p.g.onWrittenSize
+	for _, b := range in {
+		if n >= len(b) {
+			if onWrittenSize != nil && len(b) > 0 {
+				onWrittenSize(c, b, len(b))
+			}
+			n -= len(b)
+			continue
+		}
+		if n > 0 && onWrittenSize != nil {
+			onWrittenSize(c, b[:n], n)
+		}
+		c.newToWriteBuf(b[n:])
+		n = 0
+	}
+
+	return size, nil
 }
 
 // func (c *Conn) appendWrite(t *toWrite) {
